@@ -12,7 +12,7 @@
 //   sub <name> req|unreq        ProcessNewBlock(block, force_processing = req, min_pow_checked=true, &new_block)
 //   inv <name>                  the invalidateblock RPC body: InvalidateBlock(chainman, hash) (+ ActivateBestChain)
 //   rec <name>                  the reconsiderblock RPC body: ReconsiderBlock(chainman, hash)
-// output:  one token per hdr/sub/inv/rec op:  <result>,<tip name>{,<name>=K<known>D<have_data>F<failed>A<in active
+// output:  one token per hdr/sub/inv/rec op:  <result>/w<blocks written to the block file by the op>,<tip name>{,<name>=K<known>D<have_data>F<failed>A<in active
 //   chain>S<nSequenceId>}*   listing every block (fixture g0..g100, then script blocks in definition order) whose
 //   flags differ from what was last printed for it (initially: fixture K1D1F0A1S<height+2>, script K0D0F0A0S-1).
 // With more than a few cases the work is spread over forked worker processes (forked before any fixture exists).
@@ -149,8 +149,18 @@ struct Run {
         return r.empty() ? "invalid" : r;
     }
 
+    // number of blocks written to blk00000.dat (the fixture never leaves the first block file)
+    int nblocks()
+    {
+        LOCK(cs_main);
+        auto* fi = cm().m_blockman.GetBlockFileInfo(0);
+        return fi ? (int)fi->nBlocks : 0;
+    }
+
     std::string op(const std::vector<std::string>& w)
     {
+        const int w0 = nblocks();
+        auto wr = [&]() { return "/w" + std::to_string(nblocks() - w0); };
         if (w[0] == "hdr" && w.size() >= 2) {
             std::vector<CBlockHeader> hs;
             for (size_t i = 1; i < w.size(); ++i) {
@@ -160,7 +170,7 @@ struct Run {
             }
             BlockValidationState st;
             bool ok = cm().ProcessNewBlockHeaders(hs, /*min_pow_checked=*/true, st);
-            return std::string(ok ? "1" : "0") + reason(st) + "," + tip() + delta();
+            return std::string(ok ? "1" : "0") + reason(st) + wr() + "," + tip() + delta();
         }
         if (w[0] == "sub" && w.size() == 3) {
             const Blk& b = blocks.at(w[1]);
@@ -171,19 +181,19 @@ struct Run {
             // a fresh copy every time: CBlock caches fChecked / m_checked_* on the object
             auto copy = std::make_shared<const CBlock>(*b.block);
             bool ok = cm().ProcessNewBlock(copy, /*force_processing=*/req, /*min_pow_checked=*/true, &nb);
-            return std::string(ok ? "1" : "0") + (nb ? "n" : "o") + "," + tip() + delta();
+            return std::string(ok ? "1" : "0") + (nb ? "n" : "o") + wr() + "," + tip() + delta();
         }
         if (w[0] == "inv" && w.size() == 2) {
             const Blk& b = blocks.at(w[1]);
             std::string r = "ok";
             try { InvalidateBlock(cm(), b.hash); } catch (const UniValue&) { r = "err"; }
-            return r + "," + tip() + delta();
+            return r + wr() + "," + tip() + delta();
         }
         if (w[0] == "rec" && w.size() == 2) {
             const Blk& b = blocks.at(w[1]);
             std::string r = "ok";
             try { ReconsiderBlock(cm(), b.hash); } catch (const UniValue&) { r = "err"; }
-            return r + "," + tip() + delta();
+            return r + wr() + "," + tip() + delta();
         }
         throw std::runtime_error("bad op " + w[0]);
     }
